@@ -35,11 +35,11 @@ import (
 	"github.com/ozontech/seq-db/fracmanager"
 	"github.com/ozontech/seq-db/logger"
 	"github.com/ozontech/seq-db/mappingprovider"
-	pb "github.com/ozontech/seq-db/pkg/storeapi"
 	proxypb "github.com/ozontech/seq-db/pkg/seqproxyapi/v1"
+	pb "github.com/ozontech/seq-db/pkg/storeapi"
 	"github.com/ozontech/seq-db/proxy/search"
-	"github.com/ozontech/seq-db/proxyapi"
 	"github.com/ozontech/seq-db/proxy/stores"
+	"github.com/ozontech/seq-db/proxyapi"
 	"github.com/ozontech/seq-db/seq"
 	"github.com/ozontech/seq-db/storeapi"
 
@@ -585,10 +585,10 @@ type localStore struct {
 
 // replicaWorld: which replica answered the last search, and whether that replica is down when the fetch comes
 type replicaWorld struct {
-	mu         sync.Mutex
-	lastSearch string
+	mu          sync.Mutex
+	lastSearch  string
 	downAtFetch bool
-	refused    int
+	refused     int
 }
 
 func (l *localStore) Search(ctx context.Context, in *pb.SearchRequest, _ ...grpc.CallOption) (*pb.SearchResponse, error) {
